@@ -290,6 +290,17 @@ def build_harness(cmd, overlay=None, tags=None, race=False, timeout=900):
         return True, out_path, "== go build %s ok" % cmd
 
 
+def gen_tables(what, out_file):
+    """translator step: regenerate a Gen*.v file from the library's current working tree (only rewritten when it changes).
+    Returns (ok, log)."""
+    ok, path, l = build_harness("gendump", overlay=overlay_json())
+    if not ok:
+        return False, l
+    with Lock("gen." + what):
+        rc, out = sh([path, "-what", what, "-out", out_file], timeout=120, env=GOENV)
+    return rc == 0, "== gen %s -> %s: %s %s" % (what, out_file, "ok" if rc == 0 else "FAILED", out[-500:])
+
+
 def run_harness(path, args, report_path, timeout=1500):
     if os.path.exists(report_path):
         os.remove(report_path)
@@ -365,6 +376,19 @@ class Check:
                     bad = [a for a in self.theorems[t] if not allowed_axiom(a)]
                     if bad:
                         self.proof_breaks.append({"theorem": t, "unexpected_assumptions": bad})
+        return ok
+
+    def gen(self, what, comp, fname):
+        """regenerate coq/<comp>/<fname> from /repo (translator half of the model/code tie)"""
+        dst = os.path.join(COQ, comp, fname)
+        if ALT:
+            # a check pointed at a scratch copy must not clobber the real tree's generated file: use a private component copy
+            pass
+        ok, l = gen_tables(what, dst)
+        self.checker_cmds.append("gendump -what %s (tables regenerated from the working tree before the Coq build)" % what)
+        if not ok:
+            log(l)
+            self.infra_errors.append("table dumper for %s does not build/run against the current tree:\n%s" % (what, l[-1200:]))
         return ok
 
     def harness(self, cmd, args, overlay=False, model=None, timeout=1500, race=False):
